@@ -2,12 +2,15 @@
 from __future__ import annotations
 
 import random
+import re
 from typing import Any
 
 from ..engine import monitors, suite
 from ..runner import Divergence, Driver, Env, Outcome, Violation, diff_streams
 
 THEOREMS = ["C08_owner_is_handler", "C08_never_handler_of_handler", "C08_scoped_owner", "C08_wildcard_otherwise",
+            "C08_layout_accepted_iff_no_errors", "C08_layout_covering_handler_rejected", "C08_layout_scoped_over_wildcard_rejected",
+            "C08_layout_covering_handler_reported", "C08_accepted_layout_handler_steps_unowned",
             "C08_route", "C08_fail", "C08_lineage_budget", "C08_count_raised_by_one", "C08_other_counts_kept", "C08_init",
             "C08_init_resumed", "C08_lineage_budget_waiters", "C08_wait_suspend_records_attempt", "C08_wait_replay_keeps_budget",
             "C08_wait_replay_lands", "C08_wait_replay_keeps_budget_resolve", "C08_wait_replay_keeps_budget_timeout",
@@ -19,7 +22,9 @@ THEOREMS = ["C08_owner_is_handler", "C08_never_handler_of_handler", "C08_scoped_
 LEAN_TARGETS = ["WfProps.C08"]
 EXPLANATION = (
     "Lean: (1) handler table model: scoped owner first, else wildcard, never for a handler step, owner is a declared "
-    "handler; (2) reducer: exhausted failure with owner and budget left => exactly one StepFailedEvent to the owner "
+    "handler; which layouts are accepted: `errors` models the messages of validate_catch_error_handlers one by one (wildcard count, then per claim "
+    "unknown / covers a handler step / claimed twice), accepted <=> no message and budgets >= 1, any layout in which a handler lists a handler step "
+    "(scoped, the wildcard, itself) is rejected with that message, accepted layouts leave every handler step unowned; (2) reducer: exhausted failure with owner and budget left => exactly one StepFailedEvent to the owner "
     "with count+1 (other counts kept), state unchanged; no owner or budget spent => WorkflowFailedEvent + failure with "
     "the original exception; (3) runner LTS invariant for every schedule, fresh and resumed runs: no attempt, waiter, tick "
     "or timer ever carries a recovery count above a handler's max_recoveries; (4) a suspension in wait_for_event keeps "
@@ -29,7 +34,10 @@ EXPLANATION = (
     "the counts of its in-progress entry, so the budget invariant holds for schedules with step-side sends with no assumption on "
     "them, and an item re-dispatched by a handler whose budget is spent fails the run (sending it without counts would re-enter "
     "the handler: refuted alternative with witness). Tie: table model vs real _collect_catch_error_handlers on random "
-    "handler layouts (incl. invalid ones), reducer/runner correspondence. Search: every exhausted failure on real runs "
+    "handler layouts (incl. invalid ones) and the classified messages of validate_catch_error_handlers on the same layouts, reducer/runner "
+    "correspondence. Search: the handler LAYOUT is an input (scoped handler listing the wildcard handler / a scoped handler / itself, mutual, chains, "
+    "two wildcards, overlapping scopes, unknown names; handlers that raise): from the layout alone, either rejected or no handler step has an owner, "
+    "every other step has the owner the layout gives it, and no handler is ever entered with the failure of a handler step; every exhausted failure on real runs "
     "is checked against the routing rule recomputed from the static spec; handler entries per lineage path counted from the trace "
     "(edges: returned events AND events sent with ctx.send_event), the counts on every sent tick and at every exhausted failure "
     "against that count; counts in every state. The "
@@ -42,11 +50,29 @@ ASSUMPTIONS = suite.ENGINE_ASSUMPTIONS + [
 ]
 
 
+_MSG_RX = [
+    (re.compile(r"^Only one wildcard @catch_error handler is allowed per workflow, found (\d+): "), lambda m: f"W{m.group(1)}"),
+    (re.compile(r"^@catch_error handler 's(\d+)' lists unknown step 's(\d+)' in for_steps\.$"), lambda m: f"U{int(m.group(1))}:{int(m.group(2))}"),
+    (re.compile(r"^@catch_error handler 's(\d+)' cannot cover another handler step 's(\d+)'\.$"), lambda m: f"C{int(m.group(1))}:{int(m.group(2))}"),
+    (re.compile(r"^Step 's(\d+)' is claimed by two @catch_error handlers: 's(\d+)' and 's(\d+)'\.$"),
+     lambda m: f"D{int(m.group(1))}:{int(m.group(2))}:{int(m.group(3))}"),
+]
+
+
+def _classify_msg(msg: str) -> str:
+    for rx, f in _MSG_RX:
+        m = rx.match(msg)
+        if m:
+            return f(m)
+    return "?" + msg.replace(" ", "_")[:80]
+
+
 def _table_corr(env: Env, out: Outcome, n: int) -> None:
     from workflows.decorators import StepConfig
     from workflows.errors import WorkflowValidationError
     from workflows.events import StepFailedEvent
-    from workflows.representation.validate import _collect_catch_error_handlers
+    from workflows.decorators import CatchErrorHandler
+    from workflows.representation.validate import _collect_catch_error_handlers, validate_catch_error_handlers
 
     from ..engine import evtypes as ET
 
@@ -105,6 +131,14 @@ def _table_corr(env: Env, out: Outcome, n: int) -> None:
         dtoks = " ".join(f"{i} {'_' if fs is None else str(len(fs)) + (' ' if fs else '') + ' '.join(map(str, fs))} {mr}" for i, fs, mr in decls)
         ops.append(f"H {len(order)} {' '.join(map(str, order))} {len(decls)} {dtoks}".replace("  ", " ").strip())
         exp.append(res)
+        # which layouts are rejected and why: the messages of validate_catch_error_handlers itself, classified, in order
+        msgs = validate_catch_error_handlers(
+            [CatchErrorHandler(step_name=f"s{i:02d}", for_steps=None if fs is None else [f"s{t:02d}" for t in fs], max_recoveries=max(1, mr))
+             for i, fs, mr in decls], set(lay_names))
+        ops.append("E" + ops[-1][1:])
+        exp.append(" ".join(_classify_msg(m) for m in msgs) or "none")
+        if msgs:
+            out.count("table:messages:" + "+".join(sorted({_classify_msg(m)[0] for m in msgs})))
         out.evaluations += 1
         out.count("table:" + ("invalid" if res == "invalid" else "valid"))
         if res != "invalid" and decls:
